@@ -65,25 +65,36 @@ def find_violations(rows):
     return bad
 
 
-def emit(rows, names, path):
+def emit(rows, names, path, chunk=100):
+    """The table is emitted in chunks of `chunk` rows (one `def` + one `decide +kernel` obligation each): a single list
+    literal of ~2000 rows (thorough tier: six feature sets) exceeds Lean's elaboration recursion depth."""
     ids = {n: i for i, n in enumerate(sorted(names))}
     out = ["import MmtkModel.Model.Layout",
            "/-! GENERATED on every run by gen/emit_spectable.py from `hx_consts` (the linked mmtk-core). Do not edit. -/",
            "namespace Mmtk.Generated.SpecTable", "open Mmtk.Layout", "",
            "/-- spec names (index = `Spec.name`) -/",
-           "def specNames : List String := [" + ", ".join(f'"{n}"' for n in sorted(names)) + "]", "",
-           "def rows : List Row := ["]
+           "def specNames : List String := [" + ", ".join(f'"{n}"' for n in sorted(names)) + "]", ""]
     lines = []
     for (reserved, specs), cfgs in sorted(rows.items()):
         ss = ", ".join(f"⟨{ids[n]}, {'true' if g else 'false'}, {o}, {lb}, {lr}⟩" for n, g, o, lb, lr in specs)
         lines.append(f"  ⟨{reserved}, [{ss}]⟩  -- {len(cfgs)} configuration(s), e.g. {cfgs[0][0]}/{cfgs[0][1]}/placement#{cfgs[0][2]}")
-    # Lean list separators must precede comments: put the comma at the start of following lines
-    body = []
-    for i, l in enumerate(lines):
-        code, _, comment = l.partition("  -- ")
-        body.append(("  " if i == 0 else "  , ") + code.strip() + "  -- " + comment)
-    out += body + ["  ]", "",
-                   "theorem all_rows_ok : rows.all rowOk = true := by decide +kernel", "",
-                   "theorem rows_nonempty : rows ≠ [] := by decide", "",
-                   "end Mmtk.Generated.SpecTable", ""]
+    chunks = [lines[i:i + chunk] for i in range(0, len(lines), chunk)] or [[]]
+    for k, ch in enumerate(chunks):
+        out.append(f"def rows{k} : List Row := [")
+        # Lean list separators must precede comments: put the comma at the start of following lines
+        for i, l in enumerate(ch):
+            code, _, comment = l.partition("  -- ")
+            out.append(("  " if i == 0 else "  , ") + code.strip() + "  -- " + comment)
+        out += ["  ]", "", f"theorem rows{k}_ok : rows{k}.all rowOk = true := by decide +kernel", ""]
+    expr = f"rows{len(chunks) - 1}"
+    for k in range(len(chunks) - 2, -1, -1):
+        expr = f"rows{k} ++ ({expr})"
+    oks = ", ".join(f"rows{k}_ok" for k in range(len(chunks)))
+    out += [f"def rows : List Row := {expr}", "",
+            "theorem all_rows_ok : rows.all rowOk = true := by",
+            f"  simp [rows, List.all_append, {oks}]", "",
+            "theorem rows_nonempty : rows ≠ [] := by",
+            "  have h0 : rows0 ≠ [] := by simp [rows0]",
+            ("  simpa [rows] using h0" if len(chunks) == 1 else "  exact List.append_ne_nil_of_left_ne_nil h0 _"), "",
+            "end Mmtk.Generated.SpecTable", ""]
     open(path, "w").write("\n".join(out))
